@@ -202,7 +202,9 @@ where
 
         Ok(Some((
             row.total_operation_count,
-            row.total_header_bytes + row.total_payload_bytes,
+            // Payload sizes are claimed by (remote) headers, the total can exceed `u32::MAX`.
+            row.total_header_bytes
+                .saturating_add(row.total_payload_bytes),
         )))
     }
 
